@@ -419,7 +419,7 @@ Section Close.
           destruct (emit_results (S (List.length (ds s3))) s3) as [u4 s4|k p s4| |]; auto.
           eapply P1_ctx; [..|exact H4]; reflexivity.
         * eapply P1_ctx; [..|exact H3]; reflexivity.
-      + apply P1_PE. exact H.
+      + apply P1_PE. eapply P1_ctx; [..|exact H]; reflexivity.
   Qed.
 End Close.
 
